@@ -411,7 +411,17 @@ def span_rule(rep, u, fname="http_parse_req_line"):
                     out_.add(r)
                 if r in out_ and strip_casts(x["x"]).get("k") == "ref":
                     out_.add(l)
+            if x.get("k") == "decl":
+                for v in x.get("vars", []):
+                    if v.get("init") is not None and key(strip_casts(v["init"])) in out_:
+                        out_.add(v["n"])
         return out_
+    # the enclosing spans: what the searches *before* the target was fixed ran over (request line, header block)
+    outer = set()
+    for pos, root, c, ps in fn.calls(set(SEARCHES)):
+        if fn.pos_dominates(pos, span_store) and pos != span_store:
+            bi, si = SEARCHES[c["fn"]]
+            outer.add((key(strip_casts(c["args"][bi])), key(strip_casts(c["args"][si]))))
     a_buf, a_size = aliases("uri"), aliases("uri_size")
     n = 0
     per = 0
@@ -429,9 +439,11 @@ def span_rule(rep, u, fname="http_parse_req_line"):
         desc = "the search at line %s that delimits a component of the request target is bounded by the target span" % c.get("ln")
         if buf in a_buf and size in a_size:
             rep.proved("R-SPAN", fn, inst, desc, "%s(%s, %s)" % (c["fn"], buf, size), c.get("ln"))
+        elif (buf, size) in outer or buf in {b_ for b_, _s in outer} or size in {s_ for _b, s_ in outer}:
+            rep.violated("R-SPAN", fn, inst, desc, "it searches (%s, %s), the span that encloses the target: a delimiter behind the target is found, the "
+                         "component reaches outside the target and the length computed from the target's end wraps" % (buf, size), c.get("ln"))
         else:
-            rep.violated("R-SPAN", fn, inst, desc, "it searches (%s, %s): a delimiter behind the target is found, the component reaches outside "
-                         "the target and the length computed from the target's end wraps" % (buf, size), c.get("ln"))
+            rep.undecided("R-SPAN", fn, inst, desc, "it searches (%s, %s), which is neither the target span nor an enclosing one known here" % (buf, size), c.get("ln"))
     return n
 
 
